@@ -63,6 +63,7 @@ def tokTy : Nat → String → Option Ty
     if tok == "nil" then some .any
     else if tok == "none" || tok.startsWith "just(" || tok.startsWith "ja(" then some (.maybe .any)
     else if tok.startsWith "jg(" then (tokTy f (inner tok 3)).map Ty.maybe
+    else if tok.startsWith "pa(" then some (.ptr .any)
     else if tok.startsWith "p(" then (tokTy f (inner tok 2)).map Ty.ptr
     else if tok.startsWith "np:" then (tyOfName? (tok.drop 3).toString).map Ty.ptr
     else match tok.splitOn ":" with
@@ -95,6 +96,9 @@ def decode : Nat → Heap → String → R (Heap × GoVal)
         let m ← justGenerics T v
         pure (h, m.toVal)
       | none => throw "decode: bad type"
+    else if tok.startsWith "pa(" then do
+      let (h, v) ← decode f h (inner tok 3)
+      pure (h ++ [v], .ptr .any (some h.length))
     else if tok.startsWith "p(" then do
       let (h, v) ← decode f h (inner tok 2)
       match tokTy (f + 1) (inner tok 2) with
